@@ -671,7 +671,7 @@ impl Property for C05 {
     }
 
     fn rule() -> &'static str {
-        "one evaluation = one seeded (mode, input) pair executed through xargs_main under 2-5 read plans (cut sets, EINTR bursts, terminal EIO) plus, after the seeded runs, an exhaustive sweep item (one short string under one cut set); also both -0 and -d (last wins), every named -d escape, fields beyond 8 KiB, long text after an unclosed quote, CR/VT/FF (compared across read plans only); distinct = distinct abstract trace (sequence of read results with log2-bucketed sizes, spawn arities/outcomes, exit status); non-trivial = at least one fault fired (short read, EINTR, read error) or a boundary probe hit (cut after backslash / inside quotes / inside a multi-byte character / at a separator / at a 4096 multiple, unterminated quote, non-UTF-8 input)"
+        "one evaluation = one seeded (mode, input) pair executed through xargs_main under 2-5 read plans (cut sets, EINTR bursts, terminal EIO) plus, after the seeded runs, an exhaustive sweep item (one short string under one cut set); also both -0 and -d (last wins), every named -d escape, fields beyond 8 KiB, long text after an unclosed quote, CR/VT/FF (compared across read plans only); 5% of the runs read the stream from a real -a FILE (2% from /proc/thread-self/comm: regular, size 0), 1% have 20000-300000 consecutive separators and run on a thread with 512 KiB-2 MiB of stack; environment variables nobody should listen to in an eighth of the runs; a slice of the scenarios also goes through the real xargs executable; distinct = distinct abstract trace (sequence of read results with log2-bucketed sizes, spawn arities/outcomes, exit status); non-trivial = at least one fault fired (short read, EINTR, read error) or a boundary probe hit (cut after backslash / inside quotes / inside a multi-byte character / at a separator / at a 4096 multiple, unterminated quote, non-UTF-8 input)"
     }
 
     fn components() -> Value {
